@@ -186,3 +186,70 @@ def tasks(tier):
                 inst = "C17/signal[%s,d=%d,N=%d,M=%d,%s]" % (meth, d, N, M, gk)
                 out.append(Task(inst, guarded(lambda meth=meth, d=d, gk=gk, N=N, M=M: signal_pipeline(meth, d, N, M, gk), inst), kind="bounded", bound=dict(method=meth, order=d, N=N, M=M, grid=gk)))
     return out
+
+
+def signal_in_dynamics(kind, method):
+    """a b-spline signal inside the dynamics: interval k is propagated with the signal's value at node k
+    (and every other symbol of the ODE with its own value -- the layout obligation of get_p_sys)"""
+    from rockit import Ocp, MultipleShooting, SingleShooting
+    from .oracle import erk_step, RK4
+    c = ctx()
+    T, t0 = unknown("horizon_T", positive=True), unknown("horizon_t0")
+    ocp = Ocp(T=T, t0=t0)
+    x = ocp.state(2); u = ocp.control()
+    w = ocp.variable()                                   # a plain global variable besides the signal
+    q = ocp.parameter(); ocp.set_value(q, unknown("qv", 1, 1))
+    if kind == "variable":
+        s = ocp.variable(grid="bspline", order=1)
+    else:
+        s = ocp.parameter(grid="bspline", order=1)
+    ocp.set_der(x, ufun("f", 2, [x, u, s, w, q]))
+    N = 2
+    if kind == "parameter":
+        ocp.set_value(s, unknown("sv", 1, N + 1))
+    ocp.solver("ipopt")
+    M = dict(MS=MultipleShooting, SS=SingleShooting)[method]
+    ocp.method(M(N=N, M=1, intg="rk"))
+    inst = "C17/signal-in-dynamics[%s,%s]" % (kind, method)
+    ocp._transcribed
+    aug = ocp._augmented
+    meth = aug._method
+    opti = meth.opti
+    sig = meth.signals[s]
+    Cf = ca.MX(sig.coeff)
+    xi = [Fr(v) for v in ca.DM(meth.xi).e]
+    K = clamped(xi, 1)
+    ts = [ca.MX(t0) + ca.MX(T) * Fr(k, N) if k else ca.MX(t0) for k in range(N + 1)]
+    Wv = ca.MX(meth.V)[0]
+    Qp = ca.MX(meth.P[0])
+    rows = []
+    X = [ca.MX(meth.X[0])]
+    for k in range(N):
+        col = cox_de_boor(K, 1, xi[k])
+        sk = sum((Cf[:, i] * col[i] for i in range(len(col))), ca.MX(0.0))
+        h = ts[k + 1] - ts[k]
+        f = lambda t, xx, k=k, sk=sk: (ufun("f", 2, [xx, meth.U[k], sk, Wv, Qp]), None)
+        xn, _, _, _ = erk_step(RK4, f, X[k] if method == "SS" else ca.MX(meth.X[k]), ts[k], h)
+        if method == "MS":
+            r = ca.MX(meth.X[k + 1]) - xn
+            for i in range(2):
+                rows.append(("eq", r.e[i], ("gap", k, i)))
+        X.append(xn)
+    if method == "MS":
+        nlp.match_rows(inst + "|multiple_shooting:MultipleShooting.add_constraints:ensures:gap-with-signal", nlp.emitted_rows(opti), rows)
+    else:
+        for k in range(N + 1):
+            nlp.prove_equal(inst + "|single_shooting:SingleShooting.add_constraints:ensures:state-with-signal[%d]" % k, meth.X[k], X[k])
+
+
+_tasks1 = tasks
+
+
+def tasks(tier):
+    out = _tasks1(tier)
+    for kind in ("variable", "parameter"):
+        for m in ("MS", "SS"):
+            inst = "C17/signal-in-dynamics[%s,%s]" % (kind, m)
+            out.append(Task(inst, guarded(lambda kind=kind, m=m: signal_in_dynamics(kind, m), inst), kind="bounded", bound=dict(signal=kind, method=m, N=2, order=1),
+                            replay=dict(harness="signal_probe", kind=kind, method=m)))
+    return out
